@@ -32,6 +32,9 @@ var qi, qj, qk int
 // the index of the element processed last (-1 before the first iteration).
 var rangeindex int
 
+// iter names, in a loop invariant, the number of iterations completed so far (however the loop is written).
+var iter int
+
 func forall(v int, lo, hi int, body bool) bool { return body }
 func exists(v int, lo, hi int, body bool) bool { return body }
 
